@@ -30,6 +30,9 @@ THEOREMS = [
     "MCHap.C03.mode_is_max",
     "MCHap.C03.streamMode_spec",
     "MCHap.C03.stream_eq_array",
+    "MCHap.C03.acp_sum_ploidy",
+    "MCHap.C03.afp_sum_one",
+    "MCHap.C03.gpm_le_spm_le_one",
 ]
 RULE = ("cases: random known-haplotype sets (1..6 haplotypes), ploidy 1..6, frequencies {None, flat, skewed, zeros}, inbreeding "
         "{0,.01,.25,.5,.9}, reads with gaps and counts (depth 0..6 unique reads). Non-trivial: >= 3 genotypes with pairwise different "
@@ -43,8 +46,7 @@ def run(tier, replay=None):
     chk = C.Check(PROP, tier, MODULE, THEOREMS, RULE, assumptions=[
         "the GP/GL path stores log-likelihoods and posteriors as float32: compared at 2e-5, and the reported mode may differ "
         "between the two paths only when the two largest posteriors are within float32 resolution (counted, not compared)",
-        "SPM / AFP / ACP / AOP are the same functions of the posterior array on both paths in the model; their sums are checked on the "
-        "implementation output and on a concrete instance in Lean (general theorems for the sums are not proved)",
+        "SPM / AFP / ACP / AOP are the same functions of the posterior array on both paths in the model (their sums and GPM <= SPM <= 1 are theorems)",
     ])
     chk.prove()
     drv = C.Driver()
